@@ -123,3 +123,34 @@ def require(rec, names):
     for k in names:
         if not rec.counters.get("monitor_evals:" + k):
             rec.inconc("deciding monitor %s was never reached" % k)
+
+
+# ---------------------------------------------------------------- constructor-argument capture
+import inspect as _inspect
+import weakref as _weakref
+
+_CTOR = _weakref.WeakKeyDictionary()
+
+
+def capture_init(cls):
+    """remember, per instance, the arguments its constructor was called with (public configuration),
+    so that oracles need not read private attributes"""
+    sig = _inspect.signature(cls.__init__)
+
+    def post(c):
+        if c.exc is not None:
+            return
+        try:
+            ba = sig.bind(c.self, *c.args, **c.kwargs)
+            ba.apply_defaults()
+            a = dict(ba.arguments)
+            a.pop("self", None)
+            _CTOR[c.self] = a
+        except TypeError:
+            pass
+
+    attach(cls, "__init__", post=post, reentrant=True, op=cls.__name__ + ".__init__[capture]")
+
+
+def ctor_args(obj):
+    return _CTOR.get(obj)
